@@ -58,7 +58,10 @@ RULE_ADDED = (
               'Round 17: secret-like variables (PIN, HSM_PIN, PASSWORD ...) exported in the too'
               "ls' environment. "
               ' '
-              'Round 18: PINs with characters between Z and a in ASCII. ')
+              'Round 18: PINs with characters between Z and a in ASCII. '
+              ' '
+              'Round 20: changepin with the new PIN also given as the current one (30% of the o'
+              'ption cells), with or without -u. ')
 RULE = RULE + " " + RULE_ADDED.strip()
 ASSUMPTIONS = [
     "simulated devices (pv/simdev) trusted; operator input is scripted, an exhausted script "
@@ -291,6 +294,11 @@ def run_cell(acc, cell, tmpdir, seed):
         # the current PIN is always given as an option; the new one varies
         opts = options(pin="abcd1234", new_pin=pin if src == "option" else None, any_pin=anyp,
                        no_unlock=flag)
+        if src == "option" and random.Random(seed ^ 0xc18).random() < 0.3:
+            # ... or not: a wrapper that sets "the" PIN hands the same value over as the
+            # current and as the new one (with or without -u)
+            opts = options(pin=pin, new_pin=pin, any_pin=anyp, no_unlock=flag)
+            acc.count("changepin_cells_with_the_new_pin_also_given_as_the_current_one")
         if src == "prompt":
             acceptable = (any_ok(pin) if anyp else strict_ok(pin))
             getpass_answers = [pin, "Zz345678"] if acceptable else \
